@@ -26,9 +26,19 @@ def clamp_index(i, n):
 
 
 def slice_indices(cx, sl, n):
-    """(a, b, c, step_zero): the triple slice.indices(n) returns, as z3 terms
-    (CPython: PySlice_Unpack + PySlice_AdjustIndices)."""
-    c = ite(sl.step.is_none, z3.IntVal(1), sl.step.t)
+    """(a, b, c): the triple slice.indices(n) returns (CPython: PySlice_Unpack + PySlice_AdjustIndices;
+    step None -> 1; c == 0 is the caller's ValueError case).
+
+    The triple is returned as three fresh constants *defined* by the If-terms of the CPython algorithm
+    (definitional extension), together with their range facts, which are first proved from the
+    definitions (a derived lemma, not an assumption) so that later queries see small atoms."""
+    key = ("indices", sl.start.is_none.sexpr(), sl.start.t.sexpr(), sl.stop.is_none.sexpr(), sl.stop.t.sexpr(),
+           sl.step.is_none.sexpr(), sl.step.t.sexpr(), n.sexpr())
+    cache = cx.__dict__.setdefault("_indices", {})
+    if key in cache:
+        return cache[key]
+    c_def = ite(sl.step.is_none, z3.IntVal(1), sl.step.t)
+    c = cx.fresh_int("step")
     neg = c < 0
 
     def adj(comp, dflt_pos, dflt_neg):
@@ -38,8 +48,18 @@ def slice_indices(cx, sl, n):
         hi = ite(neg, n - 1, n)
         vv = ite(v < 0, ite(v1 < 0, lo, v1), ite(v >= n, hi, v))
         return ite(comp.is_none, ite(neg, dflt_neg, dflt_pos), vv)
-    a = adj(sl.start, z3.IntVal(0), n - 1)
-    b = adj(sl.stop, n, z3.IntVal(-1))
+    a, b = cx.fresh_int("start"), cx.fresh_int("stop")
+    defs = z3.And(c == c_def, a == adj(sl.start, z3.IntVal(0), n - 1), b == adj(sl.stop, n, z3.IntVal(-1)))
+    ranges = z3.And(z3.Implies(c > 0, z3.And(0 <= a, a <= n, 0 <= b, b <= n)),
+                    z3.Implies(c < 0, z3.And(-1 <= a, a <= n - 1, -1 <= b, b <= n - 1)))
+    s = z3.Solver()
+    s.set("timeout", 5000)
+    s.add(n >= 0, defs, z3.Not(ranges))
+    cx.axioms.append(defs)
+    if s.check() == z3.unsat:
+        cx.axioms.append(z3.Implies(n >= 0, ranges))
+        cx.hints.append("derived lemma: range of slice.indices results (proved from the definitions)")
+    cache[key] = (a, b, c)
     return a, b, c
 
 
@@ -891,8 +911,7 @@ class Builtins:
             return k(ref, st2)
 
         def many(st2):
-            r = cx.fresh("rep", SeqV)
-            j = z3.Int("j!r")
+            r = z3.Function("repeat", SeqV, z3.IntSort(), SeqV)(s, m)
             q, rr = z3.Ints("q!r r!r")
             ax = z3.And(z3.Length(r) == n * m,
                         z3.Extract(r, 0, n) == s,
@@ -972,13 +991,17 @@ class Builtins:
         A `key` callable is an opaque callback that may raise before anything moves."""
         cx = self.cx
         s = self._seq(ref, st)
-        r = cx.fresh("sorted", SeqV)
+        keyf = kwargs.get("key", NONE)
+        rv = kwargs.get("reverse", VBool(False))
+        kt = as_val(cx, keyf, st)
+        r = z3.Function("sorted", SeqV, Val, z3.BoolSort(), SeqV)(s, kt, truth(cx, rv, st))
         perm = z3.Function("is_permutation", SeqV, SeqV, z3.BoolSort())
-        out = k(NONE, self.set_payload(ref, r, st.assume(z3.Length(r) == z3.Length(s), perm(s, r))))
-        keyf = kwargs.get("key")
-        if keyf is not None and not isinstance(keyf, VNone):
-            e = cx.fresh("sortkey_exc", Exc)
-            stE = st.assume(z3.Length(s) > 0, *cx.exc_axioms(e))
+        raises = z3.Function("sortkey_raises", SeqV, Val, z3.BoolSort())(s, kt)
+        ok = z3.BoolVal(True) if isinstance(keyf, VNone) else z3.Not(raises)
+        out = k(NONE, self.set_payload(ref, r, st.assume(ok, z3.Length(r) == z3.Length(s), perm(s, r))))
+        if not isinstance(keyf, VNone):
+            e = z3.Function("sortkey_exc", SeqV, Val, Exc)(s, kt)
+            stE = st.assume(z3.Length(s) > 0, raises, *cx.exc_axioms(e))
             if cx.feasible(stE):
                 out.append(("raise", VExc(sym=e, origin=("sort-key",)), stE))
         return out
@@ -1155,7 +1178,7 @@ class Builtins:
         m = st.heap[ref.oid].payload
 
         def nonempty(st2):
-            kk = cx.fresh("popped", Val)
+            kk = z3.Function("popitem_key", MapV, Val)(m)
             st3 = st2.assume(m[kk] != Opt.none)
             return k(VTuple([VElem(kk), VElem(Opt.get(m[kk]))]), self.set_payload(ref, z3.Store(m, kk, Opt.none), st3))
         return cx.branch(st, m != EMPTY_MAP, nonempty, lambda b: raise_(b, "KeyError"))
@@ -1241,7 +1264,7 @@ class Builtins:
         s = st.heap[ref.oid].payload
 
         def nonempty(st2):
-            x = cx.fresh("popped", Val)
+            x = z3.Function("set_pop_elem", SetV, Val)(s)
             return k(VElem(x), self.set_payload(ref, z3.Store(s, x, z3.BoolVal(False)), st2.assume(s[x])))
         return cx.branch(st, s != EMPTY_SET, nonempty, lambda b: raise_(b, "KeyError"))
 
